@@ -82,9 +82,14 @@ type Result struct {
 	Fault     string          `json:"fault,omitempty"`
 	FaultKind string          `json:"faultKind,omitempty"`
 	Event     int             `json:"event,omitempty"` // subscriptions: which event this (split) result is
+	Unended   bool            `json:"unended,omitempty"` // subscriptions: the response function was still answering after subPayloadCap calls
 	Around    bool            `json:"around,omitempty"`
 	DefaultRecover bool       `json:"defaultRecover,omitempty"`
 }
+
+// subPayloadCap bounds how often the runner asks a subscription for its next response (the universal resolver's
+// streams deliver at most a few events; a response function that never returns nil would spin forever)
+const subPayloadCap = 40
 
 // SplitEvents turns the result of a subscription into one result per delivered event: the event's
 // payload, the invocations made while it was delivered, and - in place of the stream resolver's own
@@ -280,6 +285,11 @@ func RunCase(es graphql.ExecutableSchema, c Case) Result {
 				break
 			}
 			if c.MaxPayloads > 0 && len(res.Payloads) >= c.MaxPayloads {
+				break
+			}
+			if isSub && c.MaxPayloads == 0 && len(res.Payloads) >= subPayloadCap {
+				// a stream of the universal resolver has a handful of events: this one does not end
+				res.Unended = true
 				break
 			}
 		}
@@ -644,6 +654,18 @@ type TypeJSON struct {
 	// Implementors mirrors codegen's `<type>Implementors` list for object types: the type itself,
 	// the unions it is a member of and the interfaces it implements
 	Implementors []string `json:"implementors,omitempty"`
+	// Dirs: the directives written on the type's DEFINITION, in source order (codegen bindField hands them to
+	// every field that returns the type)
+	Dirs []string `json:"dirs,omitempty"`
+}
+
+// DirDefJSON: a directive the schema declares, with its locations (codegen ImplDirectives runs a directive
+// around a field only when its definition lists FIELD_DEFINITION, OBJECT or INPUT_OBJECT)
+type DirDefJSON struct {
+	Name string   `json:"name"`
+	Locs []string `json:"locs"`
+	// SkipRuntime: the generated DirectiveRoot has no implementation slot for it (codegen Directive.SkipRuntime)
+	SkipRuntime bool `json:"skipRuntime,omitempty"`
 }
 type FieldJSON struct {
 	Name  string    `json:"name"`
@@ -660,6 +682,7 @@ type SchemaJSON struct {
 	Query    string     `json:"query"`
 	Mutation string     `json:"mutation,omitempty"`
 	Types    []TypeJSON `json:"types"`
+	Directives []DirDefJSON `json:"directives,omitempty"`
 }
 
 func typeRef(t *ast.Type) *TypeRefJ {
@@ -689,6 +712,9 @@ func SchemaToJSON(s *ast.Schema) SchemaJSON {
 			continue
 		}
 		t := TypeJSON{Name: n, Kind: string(d.Kind), Interfaces: d.Interfaces}
+		for _, dd := range d.Directives {
+			t.Dirs = append(t.Dirs, dd.Name)
+		}
 		for _, f := range d.Fields {
 			fj := FieldJSON{Name: f.Name, Type: typeRef(f.Type)}
 			for _, dd := range f.Directives {
@@ -720,6 +746,21 @@ func SchemaToJSON(s *ast.Schema) SchemaJSON {
 			}
 		}
 		out.Types = append(out.Types, t)
+	}
+	var dnames []string
+	for n := range s.Directives {
+		dnames = append(dnames, n)
+	}
+	sort.Strings(dnames)
+	for _, n := range dnames {
+		dj := DirDefJSON{Name: n, Locs: []string{}}
+		if runtimeDirectives != nil && !runtimeDirectives[strings.ToLower(strings.ReplaceAll(n, "_", ""))] {
+			dj.SkipRuntime = true
+		}
+		for _, l := range s.Directives[n].Locations {
+			dj.Locs = append(dj.Locs, string(l))
+		}
+		out.Directives = append(out.Directives, dj)
 	}
 	return out
 }
